@@ -433,7 +433,7 @@ def mk_field(e, name, fidx):
         if e.name == 'tuple' or e.c.get('akind') == 'adt':
             if fidx < len(ops):
                 return ops[fidx]
-    return E('field', name, [e])
+    return E('field', name, [e], c={'fidx': fidx})
 
 
 def strip(e):
@@ -532,7 +532,84 @@ def norm(e, depth=0):
     if depth > 80 or not e.args:
         return e
     n = E(e.k, e.name, [norm(a, depth + 1) for a in e.args], e.site, e.ty, e.c)
-    return n
+    return simplify_variant(n)
+
+
+_BRANCH_OK = {'std::result::Result': ('Ok', 'Err'), 'std::option::Option': ('Some', 'None')}
+
+
+def _variant_of(x):
+    x = strip(x)
+    if x.k == 'aggr' and x.c is not None and x.c.get('akind') == 'adt':
+        return x.c.get('variant')
+    return None
+
+
+def _payload(x, want, other, idx):
+    """field idx of variant `want` of x when x is (a merge of) enum aggregates; None if not known"""
+    x = strip(x)
+    v = _variant_of(x)
+    if v == want:
+        return x.args[idx] if idx < len(x.args) else None
+    if x.k == 'phi':
+        outs = []
+        for a in x.args:
+            va = _variant_of(a)
+            if va == other:
+                continue            # this alternative does not reach a use of the `want` payload
+            if va == want:
+                a_ = strip(a)
+                if idx >= len(a_.args):
+                    return None
+                outs.append(a_.args[idx])
+            else:
+                inner = _payload(a, want, other, idx) if strip(a).k == 'phi' else None
+                if inner is None:
+                    return None
+                outs.append(inner)
+        if not outs:
+            return None
+        if len(outs) == 1:
+            return outs[0]
+        return E('phi', None, outs, c=x.c)
+    return None
+
+
+def simplify_variant(e):
+    """`?` on a value whose variant the data flow knows: ((branch(X) as Continue).0) with X = Ok(v) (or a merge of
+    Ok(v) and Err(..) alternatives: the Err ones take the other edge) is v; same for direct `as Ok` / `as Some`
+    projections and for fields of a known tuple."""
+    if e.k != 'field' or not e.args:
+        return e
+    name = e.name or ''
+    c = strip(e.args[0])
+    # field i of a known tuple / struct aggregate
+    if not name.startswith('as '):
+        if c.k == 'aggr' and c.c is not None and (c.name == 'tuple' or c.c.get('akind') == 'adt'):
+            i = (e.c or {}).get('fidx')
+            if i is None and name.isdigit():
+                i = int(name)
+            if i is not None and i < len(c.args):
+                return c.args[i]
+        if c.k == 'field' and (c.name or '').startswith('as ') and c.args:
+            i = (e.c or {}).get('fidx')
+            if i is None and name.isdigit():
+                i = int(name)
+            src = strip(c.args[0])
+            vname = c.name[3:]
+            if i is not None:
+                if src.k == 'call' and (src.name or '').endswith('>::branch') and len(src.args) == 1 and vname in ('Continue',):
+                    for ty_, (ok, bad) in _BRANCH_OK.items():
+                        if ty_ in src.name:
+                            r = _payload(src.args[0], ok, bad, i)
+                            if r is not None:
+                                return r
+                elif vname in ('Ok', 'Some', 'Err'):
+                    other = {'Ok': 'Err', 'Err': 'Ok', 'Some': 'None'}[vname]
+                    r = _payload(src, vname, other, i)
+                    if r is not None:
+                        return r
+    return e
 
 
 def same(a, b, depth=0):
